@@ -20,10 +20,53 @@ def chk(pid, cat, text, note, tech, ref, engine):
         'evidence_file': '/verif/evidence/%s.json' % pid, 'replay_cmd_template': './check %s --replay {path}' % pid, 'engine': engine,
         'level_claimed': {'category': cat, 'text': text, 'design_ref': ref}, 'level_note': note, 'technique': tech}
 
+ES_NOTE = ('Trusted: rustc monomorphisation, num-dual generics, the Sym tracer, z3, exact-rational constant folding. Assumed: reals instead of f64 rounding; transcendental functions '
+           'uninterpreted + ground axioms; branches on .re() as at the witness; denominators of the reference execution non-zero. Per parameter set (shipped records / synthetic records), not for all parameters. ')
+EK_NOTE = ('E-K: Kani 0.68/CBMC 6.11 on the compiled code; derivative-cache container replaced by a fixed-capacity association array under cfg(kani) (std HashMap contract trusted); RandomState::new stubbed; '
+           'single thread; only harness assertions, unwinding assertions and cover! decide. ')
+ES_TECH = 'symbolic execution by generic instantiation (Sym: DualNum) + SMT (z3 QF_NRA/UF) relational cut-point sweeping; native f64 replay of disagreements'
+
+chk('C01', 'proof',
+    'Partial: (a) E-K: for a polynomial verification EOS (degree <= 3, symbolic small-integer coefficients) every residual getter of State (pressure, entropy, chemical potential, dp/dV, dp/dT, dp/dN, dmu/dN, dmu/dT, dS/dT, d2S/dT2, d2p/dV2) returns exactly the closed-form partial derivative (sign, dual seeding, cache key); '
+    '(b) E-S: tracing each shipped model at two witnesses gives the same term DAG, i.e. no state-dependent data is concretised through .re() (the mechanism that makes dual parts wrong); (c) E-S: derivative parts computed through Dual/HyperDual/Dual3<Sym> have the homogeneity degrees implied by C02. '
+    'The finite-difference formulation over a state grid is not a solver query and is not claimed.',
+    ES_NOTE + EK_NOTE + 'Models whose trace concretises (cross-association Newton iterate, SAFT-VRQ Mie effective diameters, ePC-SAFT T-dependent diameters) are listed outside_reach in scope/es_scope.json unless a native finite-difference replay shows a wrong derivative.',
+    ES_TECH + '; Kani/CBMC bounded model checking of State getters against closed forms', 'DESIGN.md 4/C01', 'E-S + E-K')
 chk('C02', 'proof',
-    'For every shipped residual model (PR, PC-SAFT incl. association/polar/k_ij, ePC-SAFT, gc-PC-SAFT, PeTS, uv-theory WCA/BH/B3, SAFT-VR Mie, SAFT-VRQ Mie) and every functional bulk path, z3 proves A_k(T, lam V, lam N) = lam A_k(T,V,N) for each contribution k, for all real T,V,N_i,lam > 0 on the traced control path, from the expression DAG obtained by running the real generic code on a symbolic number type. Bounded: 2 components quick (1-3 thorough), seeded shipped parameter sets, real-arithmetic semantics.',
-    'Trusted: rustc monomorphisation, num-dual generics, the Sym tracer, z3, exact-rational constant folding. Assumed: reals instead of f64 rounding; transcendental functions uninterpreted + ground axioms; branches on .re() as at the witness; denominators of the reference execution non-zero. Per parameter set, not for all parameters.',
-    'symbolic execution by generic instantiation (Sym: DualNum) + SMT (z3 QF_NRA/UF) relational cut-point sweeping; native f64 replay of disagreements', 'DESIGN.md 2, 4/C02', 'E-S')
+    'For every shipped residual model (PR, PC-SAFT incl. association/polar/k_ij, ePC-SAFT, gc-PC-SAFT, PeTS, uv-theory WCA/BH/B3, SAFT-VR Mie, SAFT-VRQ Mie) and every functional bulk path, z3 proves A_k(T, lam V, lam N) = lam A_k(T,V,N) for each contribution k, for all real T,V,N_i,lam > 0 on the traced control path, from the expression DAG obtained by running the real generic code on a symbolic number type. Bounded: 2 components, seeded parameter sets, real-arithmetic semantics.',
+    ES_NOTE, ES_TECH, 'DESIGN.md 2, 4/C02', 'E-S')
+chk('C03', 'model_checking',
+    'Partial: (a) E-K: State::new over option subsets (one harness per concrete subset, 21 quick / all 2x256 thorough; all payloads symbolic f64 incl. NaN/inf/-0): over-/under-determined sets and component-count mismatches are errors, Ok echoes T/V/N bitwise and is finite and non-negative, InvalidState only for invalid values, density iteration selected exactly where documented; '
+    '(b) E-M: on the MIR control slices of density_iteration and newton, z3 Spacer proves (unbounded in the iteration count) that Ok is never returned after the iteration budget is exhausted without a passed tolerance test, and that NotConverged is reachable. Convergence/success clauses for real models are not decided.',
+    EK_NOTE + 'E-M: abstraction to integer/boolean locals, Range<i32>/Option<i32> by std contract, every call and float comparison nondeterministic; unreachability is sound for the real function, reachability is reported only after a native replay.',
+    'Kani/CBMC bounded model checking (public API, symbolic f64 payloads); MIR control slice -> constrained Horn clauses -> z3 Spacer; native replay', 'DESIGN.md 3, 4/C03', 'E-K + E-M')
+chk('C05', 'model_checking',
+    'Only the non-triviality predicate: PhaseEquilibrium::is_trivial_solution over all pairs of valid 1-component states (all f64 T,V,N accepted by State::new_nvt): true implies |rho2/rho1-1| < 1e-5, bitwise copies are trivial, rho2 > 2 rho1 never is. Isofugacity, balances, bubble >= dew and the success clause are statements about converged iterations and are not decided.',
+    EK_NOTE, 'Kani/CBMC bounded model checking over symbolic f64 states', 'DESIGN.md 4/C05', 'E-K')
+chk('C08', 'proof',
+    'Pairs decided by z3 for all real states on the traced path: generic containers (ResidualModel enum via the derive macros, EquationOfState wrapper) vs bare model for 12 model kinds; ePC-SAFT without ions vs PC-SAFT (with and without association); homosegmented GC parameter set vs combined record; Peng-Robinson residual pressure as the library differentiates it vs the textbook closed form. '
+    'Functional-bulk vs EOS pairs (PC-SAFT x 3 FMT versions, FMT vs BMCSL, PeTS, gc-PC-SAFT, SAFT-VRQ Mie) and SAFT-VRQ Mie(FH0) vs SAFT-VR Mie are beyond the prover (scope/es_scope.json: outside_reach): for those only a natively reproduced deviation is reported, no claim is made. Closed-form vs iterative association: outside (iterative side).',
+    ES_NOTE + 'Constants within 8 ulp (64 for the textbook pair) are identified before encoding; f64::EPSILON regularisers mapped to 0 in functional pairs.', ES_TECH, 'DESIGN.md 4/C08', 'E-S')
+chk('C09', 'proof',
+    'For ternary systems of PC-SAFT (with association and k_ij), PR, PeTS, gc-PC-SAFT (thorough: polar PC-SAFT, uv-theory, SAFT-VR Mie, ePC-SAFT, PC-SAFT functional) z3 proves for all real states on the traced path: permuted records at permuted amounts give the same contributions and permuted chemical potentials; a zero-amount component changes nothing (vs Components::subset); subset() equals the model built directly from records[idx]; a component entered twice equals once with summed amounts.',
+    ES_NOTE + 'Literal constants within 8 ulp are identified before encoding (roundoff of re-ordered f64 preprocessing; counted). Cross-association (iterative) paths are outside reach. Options that only influence f64 helpers (max_eta) are not observed.', ES_TECH, 'DESIGN.md 4/C09', 'E-S')
+chk('C10', 'proof',
+    'Partial: (a) E-K: Total = IdealGas + Residual exactly and each part equals its closed form for one getter per derivative-order arm of the contribution selector; p_ig = rho R T bitwise for all f64 inputs accepted by new_nvt; (b) E-S: ideal mixing A_ig(T,V,N) = sum_i A_ig^pure,i(T,V,N_i) and extensivity of A_ig for Joback and DIPPR(100; thorough 107/127) models. The heat-capacity-correlation clause and zero-density limits: see C13 / DESIGN.md.',
+    ES_NOTE + EK_NOTE + 'In the E-K part the ideal-gas Helmholtz energy of the verification model is a polynomial (the provided ln-based method is over-approximated by CBMC).', ES_TECH + '; Kani/CBMC', 'DESIGN.md 4/C10', 'E-S + E-K')
+chk('C11', 'model_checking',
+    'Histories only: (cache level, in-crate) every history of <= 2 (thorough 3) calls of the five Cache::get_or_insert_with_* methods with symbolic method, symbolic derivative keys and arbitrary f64 values returns bitwise the value of the requested key, also across a clone; (getter level) g after h and g on a clone taken before/after h equal the closed form for 4 (thorough 15) predecessor/getter pairs. Thread schedules and par_pure are NOT covered (Kani does not model concurrency).',
+    EK_NOTE + 'Bound: 2 components, history length 2/3.', 'Kani/CBMC bounded model checking with symbolic call histories', 'DESIGN.md 4/C11', 'E-K')
+chk('C13', 'proof',
+    'Partial: for every non-electrolyte model, the dual part read by second_virial_coefficient at zero density equals, per contribution, the same dual part of the finite-density code path at rho = 0 (z3, all T > 0 on the path); constants folded at zero density must be finite. Contributions with removable x/rho terms or concretised traces are outside_reach. Temperature derivatives and third virial: thorough / not claimed.',
+    ES_NOTE + 'StateHD::new_virial is mirrored (pub(crate)).', ES_TECH, 'DESIGN.md 4/C13', 'E-S')
+chk('C16', 'proof',
+    'Volume clause only: for Cartesian, spherical and polar axes and every n in [2,16] (thorough [2,64]) z3 proves sum_k w_k = Axis::volume() for all real L > 0 (and all alpha > 0, k0 for the polar log grid), from the MIR of the weight closures and of Axis::volume. Weighted densities / Euler-Lagrange residual / grand potential of a uniform profile need FFT convolutions: not applicable.',
+    'Trusted: rustc nightly MIR dump, the MIR->term translator (validated natively), z3. Assumed: reals; glue models of linspace/from_elem/from_shape_fn/map-collect; alpha loop over-approximated by a free variable; potential_offset = None.',
+    'MIR (rustc nightly) -> real-arithmetic SMT terms of loop-free f64 kernels, z3 QF_NRA; native replay', 'DESIGN.md 3, 4/C16', 'E-M')
+chk('C20', 'proof',
+    'Loss clause only: for each Loss variant z3 proves apply(r)^2 = s^2 rho(r^2/s^2) for all real r and s > 0 from the MIR of Loss::apply and its closures (squared form: the implementation keeps the sign of r in the linear regime). Transport properties and data-set clauses run solvers / are not loop-free: not decided.',
+    'Trusted: rustc nightly MIR dump, the MIR->term translator (validated against native Loss::apply on every run), z3. Assumed: reals; sqrt/ln/atan uninterpreted + axiom instances; mapv_inplace glue.',
+    'MIR (rustc nightly) -> real-arithmetic SMT terms, z3 QF_NRA + UF with a tactic portfolio', 'DESIGN.md 3, 4/C20', 'E-M')
 
 def main():
     claimed = sorted(CHECKS)
@@ -31,7 +74,7 @@ def main():
         'version': 1,
         'setup_cmd': 'cd /verif && ./setup.sh',
         'hooks': {'guard': 'kani', 'enable': 'cfg(kani) is set only by the Kani compiler (cargo kani); no flag needed for ordinary builds',
-                  'baseline_off_cmd': 'cd /repo && cargo test --workspace --no-fail-fast --offline', 'source_commits': [], 'add_only': True},
+                  'baseline_off_cmd': 'cd /repo && cargo test --workspace --no-fail-fast --offline', 'source_commits': ['1aab836c', '939976aa'], 'add_only': True},
         'engines': [
             {'name': 'E-S', 'path': '/verif/symtrace + /verif/lib/sweep.py', 'serves_properties': ['C01', 'C02', 'C08', 'C09', 'C10', 'C13'],
              'kind_free_text': 'symbolic trace of the real generic model code (Sym: DualNum<f64>) -> term DAG over the reals -> z3 cut-point sweeping'},
